@@ -771,6 +771,14 @@ impl Scanner for EntryScanner<'_> {
         // (SourceBuf makes sure of it).
         self.zonefile.buf.require_token()?;
 
+        // A free standing `@` denotes the current origin, not only as the
+        // owner of a record but wherever a domain name is expected.
+        if self.zonefile.buf.skip_at_token()? {
+            return RelativeName::empty_bytes()
+                .chain(self.zonefile.origin()?)
+                .map_err(|_| EntryError::bad_name());
+        }
+
         // Let’s prepare everything. We cut off the bits we don’t need with
         // the result that the buffer’s start will be 1 and we set `write`
         // to be 0, i.e., the start of the buffer. This also means that write
